@@ -50,6 +50,8 @@ FlagSet ==
     [] Family = "valued" ->
          {[NoMap EXCEPT !.from = w[1], !.to = w[2], !.iv = iv, !.diff = df, !.close = cl] :
              w \in Windows, iv \in {"once", "daily", "quarterly"}, df \in BOOLEAN, cl \in BOOLEAN}
+    [] Family = "order" ->
+         {[NoMap EXCEPT !.iv = iv, !.close = cl, !.diff = df] : iv \in {"once", "daily"}, cl \in BOOLEAN, df \in BOOLEAN}
     [] Family = "mapping" ->
          {[NoMap EXCEPT !.iv = iv, !.map = m, !.remap = rm, !.acctAll = fa[1], !.accts = fa[2]] :
              iv \in {"once", "daily"},
@@ -116,6 +118,13 @@ MissingPriceIsErrorP(case, fin) == case.V # "" =>
         journal[n].k = "trx" /\ journal[n].bk[1].q # 0 /\ journal[n].bk[1].c # case.V
         /\ LatestNorm(case, journal[n].z)[journal[n].bk[1].c] = NoPrice)
 
+\* C05: the verdict and the report are functions of the bag of directives, not of their order
+Permute(sq, p) == [n \in 1..Len(sq) |-> sq[p[n]]]
+OrderIrrelevantP(case, fin) == Family = "order" =>
+   \A p \in Permutations(1..Len(journal)) :                 \* the opens interleaved at the end instead of the start
+      LET fin2 == Run([case EXCEPT !.journal = Permute(journal, p) \o Opens])
+      IN fin2.rep = fin.rep /\ Failed(fin2) = Failed(fin) /\ fin2.lc.err.k = fin.lc.err.k
+
 \* one evaluation of Run per state
 AllInv ==
   Defined =>
@@ -127,6 +136,7 @@ AllInv ==
     IN /\ fin.lc.err.k = "none"                       \* Accepted
        /\ PairInvP(fin)
        /\ MissingPriceIsErrorP(case, fin)
+       /\ OrderIrrelevantP(case, fin)
        /\ ~Failed(fin) =>
              /\ DeltaZeroP(case, fin, np)
              /\ CellsMatchRefP(case, fin, np)
